@@ -619,14 +619,17 @@ def bSubExpr (f : Nat) (t : Tree) (rule : String) : R (Option Expr) :=
     | some e => (bExpr N f e).map some
     | none => un N s
 
+/-- EnterOC_ProjectionItems looks at the FIRST non-blank token only: `*` adds the greedy item -/
+def bStar (its : Tree) : List (Expr × Option String) :=
+  match litTokens its with
+  | "*" :: _ => [(.var "*", none)]
+  | _ => []
+
 def bProjection (f : Nat) (t : Tree) : R Projection :=
   match kidOfRule N t "oC_ProjectionItems" with
   | none => un N t
   | some its =>
-    -- EnterOC_ProjectionItems looks at the FIRST non-blank token only: `*` adds the greedy item
-    let star : List (Expr × Option String) := match litTokens its with
-      | "*" :: _ => [(.var "*", none)]
-      | _ => []
+    let star := bStar its
     match mapM' (bProjItem N f) (kidsOfRule N its "oC_ProjectionItem"), bOrder N f t, bSubExpr N f t "oC_Skip", bSubExpr N f t "oC_Limit" with
     | .ok items, .ok ord, .ok sk, .ok li => .ok { distinct := hasTok N t "DISTINCT", items := star ++ items, order := ord, skip := sk, limit := li }
     | .error e, _, _, _ => .error e
@@ -1044,14 +1047,17 @@ end
 
 def eWhere (w : Option Expr) : List String := match w with | some x => "where" :: eExpr bigFuel x | none => []
 
+def eAs (a : Option String) : List String := match a with | some a => ["as", a] | none => []
+def eItem (it : Expr × Option String) : List String := eExpr bigFuel it.1 ++ eAs it.2
+def eSortItem (si : Bool × Expr) : List String := eExpr bigFuel si.2 ++ [if si.1 then "asc" else "desc"]
+def eOrder (o : Option (List (Bool × Expr))) : List String :=
+  match o with | some o => ["order", "by"] ++ commaSep (o.map eSortItem) | none => []
+/-- `SKIP e` / `LIMIT e` -/
+def eKwExpr (kw : String) (e : Option Expr) : List String := match e with | some e => kw :: eExpr bigFuel e | none => []
+
 def eProjection (p : Projection) : List String :=
-  (if p.distinct then ["distinct"] else []) ++
-  commaSep (p.items.map (fun it => eExpr bigFuel it.1 ++ (match it.2 with | some a => ["as", a] | none => []))) ++
-  (match p.order with
-   | some o => ["order", "by"] ++ commaSep (o.map (fun si => eExpr bigFuel si.2 ++ [if si.1 then "asc" else "desc"]))
-   | none => []) ++
-  (match p.skip with | some e => "skip" :: eExpr bigFuel e | none => []) ++
-  (match p.limit with | some e => "limit" :: eExpr bigFuel e | none => [])
+  (if p.distinct then ["distinct"] else []) ++ commaSep (p.items.map eItem) ++ eOrder p.order ++
+  eKwExpr "skip" p.skip ++ eKwExpr "limit" p.limit
 
 def ePatternPart (p : PatternPart) : List String :=
   (match p.var with | some v => [v, "="] | none => []) ++
@@ -1064,25 +1070,39 @@ def eReading : Reading → List String
 
 def eKinds (ks : List String) : List String := (ks.map (fun k => [":", k])).flatten
 
-def eSetItems (items : List SetItem) : List String :=
-  "set" :: commaSep (items.map (fun it => eExpr bigFuel it.left ++ (if it.op == "" then [] else [it.op]) ++
-    (match it.right with | .expr e => eExpr bigFuel e | .kinds ks => eKinds ks)))
+def eSetRhs : SetRhs → List String
+  | .expr e => eExpr bigFuel e
+  | .kinds ks => eKinds ks
+
+def eSetItem (it : SetItem) : List String :=
+  eExpr bigFuel it.left ++ (if it.op == "" then [] else [it.op]) ++ eSetRhs it.right
+
+def eSetItems (items : List SetItem) : List String := "set" :: commaSep (items.map eSetItem)
+
+def eRemoveItem : RemoveItem → List String
+  | .kinds r ks => r :: eKinds ks
+  | .prop l => eExpr bigFuel l
+
+def eMergeAction (a : Bool × Bool × List SetItem) : List String :=
+  (if a.1 then ["on", "create"] else []) ++ (if a.2.1 then ["on", "match"] else []) ++ eSetItems a.2.2
 
 def eUpdating : Updating → List String
   | .create ps => "create" :: commaSep (ps.map ePatternPart)
   | .delete d es => (if d then ["detach", "delete"] else ["delete"]) ++ commaSep (es.map (eExpr bigFuel))
-  | .remove items => "remove" :: commaSep (items.map (fun it => match it with
-      | .kinds r ks => r :: eKinds ks
-      | .prop l => eExpr bigFuel l))
+  | .remove items => "remove" :: commaSep (items.map eRemoveItem)
   | .set items => eSetItems items
-  | .merge part acts => "merge" :: ePatternPart part ++
-      (acts.map (fun a => (if a.1 then ["on", "create"] else []) ++ (if a.2.1 then ["on", "match"] else []) ++ eSetItems a.2.2)).flatten
+  | .merge part acts => "merge" :: ePatternPart part ++ (acts.map eMergeAction).flatten
+
+def eReturn (r : Option Projection) : List String := match r with | some p => "return" :: eProjection p | none => []
 
 def eSinglePart (q : SinglePart) : List String :=
-  (q.reading.map eReading).flatten ++ (q.updating.map eUpdating).flatten ++ (match q.ret with | some p => "return" :: eProjection p | none => [])
+  (q.reading.map eReading).flatten ++ (q.updating.map eUpdating).flatten ++ eReturn q.ret
+
+def ePart (p : Part) : List String :=
+  (p.reading.map eReading).flatten ++ (p.updating.map eUpdating).flatten ++ ["with"] ++ eProjection p.withProj ++ eWhere p.withWhere
 
 def emit : Query → List String
   | .single q => eSinglePart q
-  | .multi ps l => (ps.map (fun p => (p.reading.map eReading).flatten ++ (p.updating.map eUpdating).flatten ++ ["with"] ++ eProjection p.withProj ++ eWhere p.withWhere)).flatten ++ eSinglePart l
+  | .multi ps l => (ps.map ePart).flatten ++ eSinglePart l
 
 end Dawgs.C07
